@@ -68,6 +68,8 @@ SPEC = dict(
         "PODResizeableArray::assign is not called with an empty range (memcpy on possibly-null pointers with length 0)",
         "FixedSizeRing::rbegin()/rend() const (no return statement) are only called in the sanitizer build, where UBSan stops the process deterministically",
         "a non-returning operation is detected by thread CPU time (2 s without completing one operation on <= a few hundred elements), never by wall-clock",
+        "operation classes that are known to end the process on the unchanged tree (remove() on an empty queue, gslist::front(), push_back of an own element, const reverse ring traversal, forward-only outer iterators) are enabled in a small fraction of the cases only, named in params; after 30 fatal errors of one (component, operation class) in one process family the remaining cases of that class are skipped and counted (cases_skipped_after_crash_cap)",
+        "fatal errors (sanitizer report, failed Galois assert, signal) inside a case are classified in-process from the captured stderr and keyed C14:<component>:<check in flight or error class>-after-<operation>",
         "not monitorable at run time because they do not compile when used: LazyArray::at, flat_map::upper_bound/equal_range/operator==, optional<T>(optional<U>), InsertBag::begin()/end() const and InsertBag::const_iterator",
     ],
 )
